@@ -19,11 +19,23 @@ From Wharf Require Import Heal.Protocol Heal.ProtocolProofs Heal.ProtocolSafety.
     cancellation instant, the directory state, the interleaving. *)
 Theorem validate_terminates :
   forall (p : params) (acts : list action) (s : state),
-    1 <= p_cap p -> run p acts (init p) = Some s ->
+    1 <= p_cap p -> p_closefail p = false -> run p acts (init p) = Some s ->
     length acts <= measure (init p) /\
     (s_main s = MRet \/ exists a s', a <> ACancel /\ step p a s = Some s').
 Proof. exact validate_terminates_lemma. Qed.
 Print Assumptions validate_terminates.
+
+(** The guard [p_closefail p = false] cannot be dropped.  By reading pwr/validator.go: when
+    targetPool.Close() fails in the deferred function of vctx.validate, the function returns
+    without sending on workerErrs; Validate then blocks forever on <-workerErrs.  The model
+    reaches a state with main waiting and no goroutine step enabled (clean one-file directory,
+    nothing cancelled, a consumer that never fails).  Not reproducible on the implementation
+    through its public API (the fspool over regular files does not fail to close). *)
+Theorem validate_blocks_when_close_fails_refuted :
+  exists s, run closefail_params closefail_sched (init closefail_params) = Some s /\
+            s_main s = MWaitW /\ forall a, step closefail_params a s = None \/ a = ACancel.
+Proof. exact validate_blocks_when_close_fails_lemma. Qed.
+Print Assumptions validate_blocks_when_close_fails_refuted.
 
 (** the potential function behind it: every step (of any goroutine, and the cancellation)
     strictly decreases [measure], in every state *)
@@ -35,6 +47,7 @@ Print Assumptions every_step_decreases_measure.
 (** no reachable stuck state, stated on the invariant *)
 Theorem no_reachable_deadlock :
   forall p s, 1 <= p_cap p -> Inv s -> s_main s <> MRet -> exists a s', a <> ACancel /\ step p a s = Some s'.
+  (* [Inv] is preserved by every step when p_closefail p = false: ProtocolProofs.inv_step *)
 Proof. exact no_stuck. Qed.
 Print Assumptions no_reachable_deadlock.
 
@@ -43,7 +56,7 @@ Print Assumptions no_reachable_deadlock.
     markers only - for every schedule and cancellation instant. *)
 Theorem no_false_valid :
   forall (p : params) (acts : list action) (s : state),
-    p_cons p = guardian -> run p acts (init p) = Some s ->
+    p_cons p = guardian -> p_closefail p = false -> run p acts (init p) = Some s ->
     s_main s = MRet -> s_ret s = RNil -> clean p = true.
 Proof. exact no_false_valid_lemma. Qed.
 Print Assumptions no_false_valid.
@@ -68,19 +81,19 @@ Print Assumptions no_false_valid_unfixed_mid_refuted.
     bad block) validated fail-fast under a concrete schedule reaches MRet with an error, and a
     clean one reaches MRet with nil *)
 Example damaged_run_returns_error :
-  exists acts s, run (mkparams 1 [PWound; PWound; PWound] false [FData [FBad false false] FMNone []] guardian false) acts
-                     (init (mkparams 1 [PWound; PWound; PWound] false [FData [FBad false false] FMNone []] guardian false)) = Some s
+  exists acts s, run (mkparams 1 [PWound; PWound; PWound] false [FData [FBad false false] FMNone []] guardian false false) acts
+                     (init (mkparams 1 [PWound; PWound; PWound] false [FData [FBad false false] FMNone []] guardian false false)) = Some s
                  /\ s_main s = MRet /\ s_ret s = RErr.
 Proof.
-  exists [ACons; AMain; ACons; ACons; AMain; ACons; AMain; ACons; AMain; AMainC; AMain; AMain; AMain; AWk; AWk; AWk; AMain; AMain; AMain].
+  exists [ACons; AMain; ACons; ACons; AMain; ACons; AMain; ACons; AMain; AMainC; AMain; AMain; AMain; AWk; AWk; AWk; AWk; AMain; AMain; AMain].
   eexists. split; [vm_compute; reflexivity|]. split; reflexivity.
 Qed.
 
 Example clean_run_returns_nil :
-  exists acts s, run (mkparams 1 [] false [FData [FHealthy] FMNone []] guardian false) acts
-                     (init (mkparams 1 [] false [FData [FHealthy] FMNone []] guardian false)) = Some s
-                 /\ s_main s = MRet /\ s_ret s = RNil /\ clean (mkparams 1 [] false [FData [FHealthy] FMNone []] guardian false) = true.
+  exists acts s, run (mkparams 1 [] false [FData [FHealthy] FMNone []] guardian false false) acts
+                     (init (mkparams 1 [] false [FData [FHealthy] FMNone []] guardian false false)) = Some s
+                 /\ s_main s = MRet /\ s_ret s = RNil /\ clean (mkparams 1 [] false [FData [FHealthy] FMNone []] guardian false false) = true.
 Proof.
-  exists [ACons; AMain; AWk; AMainF; AWA; AAR; ARel; ACons; AWk; AWk; AWk; AWk; AAgg; ARel; ARW; AMain; AMain; AWk; AWk; AMain; AMain; ACons; ACons; AMain].
+  exists [ACons; AMain; AWk; AMainF; AWA; AAR; ARel; ACons; AWk; AWk; AWk; AWk; AAgg; ARel; ARW; AMain; AMain; AWk; AWk; AWk; AMain; AMain; ACons; ACons; AMain].
   eexists. split; [vm_compute; reflexivity|]. repeat split.
 Qed.
